@@ -19,6 +19,7 @@ CONSTANTS
   Alpha = "%(alpha)s"
   Defer = %(defer)d
   AddPath = %(addpath)s
+  Only = %(only)s
 INVARIANTS
   Emit
 """
@@ -50,12 +51,15 @@ INVARIANTS
 """
 
 GAPS = ["Gap_Junk", "Gap_GlobalVpn"]
-STRICT = ["C17_ListVrf", "C17_VrfVisible", "C17_VrfExport", "C17_CeExport", "C17_RtcExact"]
+STRICT = ["C17_ListVrf", "C17_VrfVisible", "C17_VrfExport", "C17_CeExport", "C17_CeComplete", "C17_RtcExact"]
 
 # the known (unrepaired) findings of C17 and the mechanism switches that reproduce them
-KF_DEFECTS = {"KF-C17-rtc-withdraw": ["D1", "D2"], "KF-C17-ce-stale": ["D3"]}
-KF_KIND = {"KF-C17-rtc-withdraw": "rtc", "KF-C17-ce-stale": "ce"}
-KF_WEAK = {"rtc": ("C17_RtcExact", "C17_RtcExact_KF"), "ce": ("C17_CeExport", "C17_CeExport_KF")}
+KF_DEFECTS = {"KF-C17-rtc-withdraw": ["D1", "D2"], "KF-C17-ce-stale": ["D3"], "KF-C17-ce-prefix-collision": ["D4"]}
+KF_KIND = {"KF-C17-rtc-withdraw": "rtc", "KF-C17-ce-stale": "ce", "KF-C17-ce-prefix-collision": "cemiss"}
+KF_WEAK = {"rtc": ("C17_RtcExact", "C17_RtcExact_KF"), "ce": ("C17_CeExport", "C17_CeExport_KF"),
+           "cemiss": ("C17_CeComplete", "C17_CeComplete_KF")}
+KINDS = ("rtc", "ce", "cemiss")
+WEAK_OF = {strict: kind for kind, (strict, _) in KF_WEAK.items()}
 
 
 def tla_set(xs):
@@ -71,10 +75,11 @@ def dedupe(printed):
     return out
 
 
-def gen(run, tag, warm, alpha, steps, defer, addpath, exh, num=0, seed=1, timeout=900):
+def gen(run, tag, warm, alpha, steps, defer, addpath, exh, num=0, seed=1, timeout=900, only=()):
     cfg = "VrfRtcGen_%s.cfg" % tag
     v.write_cfg(run.sc, cfg, GEN_CFG % {"steps": steps, "exh": "TRUE" if exh else "FALSE", "warm": warm,
-                                        "alpha": alpha, "defer": defer, "addpath": "TRUE" if addpath else "FALSE"})
+                                        "alpha": alpha, "defer": defer, "addpath": "TRUE" if addpath else "FALSE",
+                                        "only": tla_set(only)})
     if exh:
         res = v.tlc(run.sc, "VrfRtcGen", cfg, workers=1, deadlock=False, timeout=timeout)
     else:
@@ -93,16 +98,17 @@ def gen(run, tag, warm, alpha, steps, defer, addpath, exh, num=0, seed=1, timeou
 
 def design(run, thorough):
     """mechanism => property, exhaustively; and each known defect is a design-level counterexample"""
-    sizes = [("a", 5, 11 if thorough else 9), ("a", 0, 10 if thorough else 8), ("b", 5, 9 if thorough else 7)]
+    sizes = [("a", 5, 11 if thorough else 9), ("a", 0, 10 if thorough else 8), ("b", 5, 9 if thorough else 7),
+             ("c", 0, 11 if thorough else 9)]
     for pool, defer, n in sizes:
         cfg = "MCVrfRtc_%s_%d_%d.cfg" % (pool, defer, n)
         v.write_cfg(run.sc, cfg, MC_CFG % {"defects": "{}", "n": n, "defer": defer, "pool": pool})
         res = v.tlc(run.sc, "MCVrfRtc", cfg, timeout=2400, coverage=thorough, workers=4 if not thorough else 8)
         run.design(res, "MCVrfRtc pool=%s defer=%d <=%d events" % (pool, defer, n))
     found = {}
-    for d, inv in (("D1", "D_RtcExact"), ("D2", "D_RtcExact"), ("D3", "D_CeExact")):
+    for d, inv, pool in (("D1", "D_RtcExact", "a"), ("D2", "D_RtcExact", "a"), ("D3", "D_CeExact", "a"), ("D4", "D_CeExact", "c")):
         cfg = "MCVrfRtc_%s.cfg" % d
-        v.write_cfg(run.sc, cfg, MC_CFG % {"defects": tla_set([d]), "n": 6, "defer": 5, "pool": "a"})
+        v.write_cfg(run.sc, cfg, MC_CFG % {"defects": tla_set([d]), "n": 6, "defer": 5, "pool": pool})
         res = v.tlc(run.sc, "MCVrfRtc", cfg, timeout=600, workers=2)
         v.require_design_ok(res, "MCVrfRtc " + d)
         names = [x["name"] for x in res.violated]
@@ -122,7 +128,7 @@ def scan(run, traces, defects, batch=1500):
     """TLC runs over all traces with the mechanism model only: which traces does the mechanism
     WITH the known defects take out of the property layer (and through which defect family)?
     Model-level bookkeeping, no verdict."""
-    out = {"rtc": set(), "ce": set()}
+    out = {k: set() for k in KINDS}
     if not defects:
         return out
     write_trace_cfg(run, "VrfRtcScan_run.cfg", defects, [], scan=True)
@@ -143,7 +149,7 @@ def scan(run, traces, defects, batch=1500):
             except Exception:
                 continue
             if isinstance(o, dict) and "tainted" in o:
-                for k in ("rtc", "ce"):
+                for k in KINDS:
                     out[k] |= set(int(x) - 1 for x in o["tainted"][k])
                 got = True
         if not got:
@@ -194,14 +200,14 @@ def validate_group(run, traces, behs, group):
         kf = "VrfRtcKF_run.cfg"
         invs = []
         for i in STRICT:
-            kind = "rtc" if i == "C17_RtcExact" else "ce" if i == "C17_CeExport" else None
+            kind = WEAK_OF.get(i)
             invs.append(KF_WEAK[kind][1] if kind in kinds else i)
         write_trace_cfg(run, kf, defects, GAPS + invs)
     taint = scan(run, traces, defects)
     if taint is None:
         chunks_validate(run, strict, traces, behs, group, known_cfg=kf)
         return
-    tainted = taint["rtc"] | taint["ce"]
+    tainted = set().union(*[taint[k] for k in KINDS])
     clean = [i for i in range(len(traces)) if i not in tainted]
     run.extra["traces_touching_known_defects"] = run.extra.get("traces_touching_known_defects", 0) + len(tainted)
     # 1 traces the known defects cannot touch: strict, in batches
@@ -213,8 +219,9 @@ def validate_group(run, traces, behs, group):
     #   what shows that the known findings are still there
     order = sorted(tainted)
     sample = []
-    for kind in ("rtc", "ce"):
-        sample += [i for i in order if i in taint[kind] and i not in sample][:2]
+    nk = {i: sum(1 for k in KINDS if i in taint[k]) for i in order}
+    for kind in KINDS:      # prefer traces that only this defect family touches
+        sample += sorted([i for i in order if i in taint[kind] and i not in sample], key=lambda i: (nk[i], i))[:2]
     before = dict(run.known_hits)
     run.validate("VrfRtcTrace", strict, [traces[i] for i in sample], [behs[i] for i in sample], known_cfg=kf, group=group)
     if run.violations:
@@ -256,6 +263,9 @@ def groups(thorough, seed):
     if thorough:
         g.append(("exh-vrf", dict(warm="vrf", alpha="small", steps=4 + 3, defer=5, addpath=False, exh=True)))
     g.append(("exh-cold", dict(warm="none", alpha="small", steps=4 if thorough else 3, defer=5, addpath=False, exh=True)))
+    # two VPN routes (different RD) with one IP prefix, both / one / none imported by the CE's VRF
+    g.append(("exh-coll", dict(warm="vrf", alpha="coll", steps=4 + (4 if thorough else 3), defer=0, addpath=False, exh=True,
+                               only=("VAnn", "VWd", "CeUp", "CeDown"))))
     return g
 
 
